@@ -301,6 +301,75 @@ def run_keepalive(ctx, scs):
             ctx.violate("periodic", "ping-after-stop", sc, "no ping after the connection ended", str(pings), size=size)
 
 
+def check_lines():
+    """line numbers of the statements of `check()` (nested in run_forever) inside its `if self.ping_timeout:` — read from
+    the working tree's AST, so that an edit of the file moves them along."""
+    import ast
+    import os
+    src = open(os.path.join(common.REPO, "websocket", "_app.py")).read()
+    tree = ast.parse(src)
+    for node in ast.walk(tree):
+        if isinstance(node, ast.FunctionDef) and node.name == "run_forever":
+            out = []
+            for fn in ast.walk(node):
+                # check(): every statement; read(): the statements that handle a pong (the other writer of the two stamps)
+                if isinstance(fn, ast.FunctionDef) and fn.name == "check":
+                    for st in ast.walk(fn):
+                        if isinstance(st, (ast.Assign, ast.If, ast.Raise, ast.Return)):
+                            out.append(st.lineno)
+                if isinstance(fn, ast.FunctionDef) and fn.name == "read":
+                    for st in ast.walk(fn):
+                        if isinstance(st, ast.If) and "last_pong_tm" in ast.unparse(st.test):
+                            out.extend(x.lineno for x in ast.walk(st) if isinstance(x, ast.stmt))
+            return sorted(set(out))
+    return []
+
+
+def run_check_race(ctx):
+    """all interleavings of the ping thread with the reading loop — INSIDE `check()`: a frame arrives at the very tick at
+    which the ping thread's wait expires, the loop thread goes first, and is preempted when it reaches one of the lines of
+    `check()`; the ping thread (stamp + ping) runs in between.  The peer answers every ping after 1 tick: no report allowed.
+    Real runs + Spec.Keepalive only (the Lean model's threads are atomic between blocking points)."""
+    lines = check_lines()
+    scs = []
+    pairs = [(2 * TPS, TPS), (3 * TPS, 2 * TPS), (5 * TPS, 2 * TPS), (1500, 777)]
+    occs = range(0, 14) if not ctx.thorough() else range(0, 30)
+    for iv, to in pairs:
+        for at in (3 * iv, 4 * iv):
+            for ln in lines:
+                for occ in occs:
+                    sc = ka_scenario(iv, to, [1, 1, 1, 1], data=[at], sched="")
+                    sc["preempt_line"] = ["_app.py", ln, occ]
+                    sc["kind"] = "ka-check-race"
+                    sc["tag"] += f":preempt=_app.py:{ln}#{occ}:data@{at}"
+                    scs.append(sc)
+    real = appcheck.run_real_many(scs)
+    dl = []
+    obs = []
+    for sc, r in zip(scs, real):
+        pings, pls, rep = observe(r["trace"])
+        obs.append((pings, rep))
+        dl.append(f"s-keepalive {sc['iv']} {sc['to']} {sc['horizon']} {','.join(map(str, pings)) or '-'} "
+                  f"{','.join(map(str, pongs_of(sc))) or '-'} {'N' if rep is None else rep}")
+    out = common.run_driver_parallel(dl)
+    for sc, r, (pings, rep), verdict in zip(scs, real, obs, out):
+        if r["abort"] == "skipped":
+            continue
+        fired = r.get("fired_at") is not None
+        ctx.case(key=sc["tag"], nontrivial=fired and bool(pings), cls=f"ka-check-race:{'fired' if fired else 'not-reached'}")
+        size = appcheck.size_of(sc)
+        if r["abort"] in ("wall-clock", "steps") or r["outcome"][0] == "harness-error":
+            ctx.violate("terminates", "stuck-" + str(r["abort"]), sc, "run finishes or is cut", str(r["outcome"]), size=size)
+        if verdict.startswith("bad"):
+            ctx.diverge("s-keepalive", sc, verdict, str((pings, rep)))
+        elif verdict != "ok":
+            for v in verdict.split(" "):
+                clause, cause = v.split(":", 1)
+                ctx.violate(clause, cause + "@ping-thread-inside-check", sc, "Spec.Keepalive clause holds",
+                            f"{v}: pings={pings} pongs={pongs_of(sc)} report={rep} (iv={sc['iv']}, to={sc['to']}); "
+                            f"loop thread preempted at {r.get('fired_at')}", size=size)
+
+
 def run_args(ctx):
     """the validation of (ping_interval, ping_timeout): refused pairs raise before any dial."""
     ivs = [-TPS, -1, 0, 1, TPS, 2 * TPS, 3 * TPS, 4 * TPS, 5 * TPS, 6 * TPS, TPS + TPS // 2]
@@ -500,13 +569,15 @@ def run(ctx):
                 "reconnect with keepalive on; the ping thread descheduled right after a ping was written (oracle only); one ping write failing transiently (oracle only) (non-trivial = at least one ping was sent)")
     run_args(ctx)
     for d in appcheck.corpus("C16"):
-        run_keepalive(ctx, [d["input"]])
+        if d["input"].get("kind") != "ka-check-race":     # (those: run_check_race below, lines re-derived from the source)
+            run_keepalive(ctx, [d["input"]])
     run_keepalive(ctx, scenarios(ctx))
     run_stall(ctx)
     run_external(ctx)
     run_external_reconnect(ctx)
     run_slow_handlers(ctx)
     run_transient_write_failure(ctx)
+    run_check_race(ctx)
     lifecycle(ctx)
     run_rerun_settings(ctx)
 
@@ -522,6 +593,8 @@ def replay(ctx, data):
     sub = common.Ctx(ctx.prop, "quick", ctx.seed)
     if sc.get("kind") == "ka":
         run_keepalive(sub, [sc])
+    elif sc.get("kind") == "ka-check-race":
+        run_check_race(sub)
     elif sc.get("kind") == "args":
         run_args(sub)
     elif sc.get("kind") == "rerun-settings":
